@@ -241,6 +241,7 @@ def run(res, programs, tier):
                 else:
                     res.fail("R13.2", cfgname, key, "inv_large decides invertibility without the length of the gcd returned by gcd_ext_in_place: a multi-word gcd whose lowest word is 1 would be taken for 1 and inv() would return Some for a non-invertible element", span_loc(f["sp"]))
         _r13_4(res, P, cfgname)
+        _r13_5(res, P, cfgname)
         from . import c15
         c15._r15_4b(res, P, cfgname)     # shared: Reduced::clone_from must also copy the ring reference
         # ---- R13.3b constructors
@@ -350,6 +351,53 @@ def _raw_ok(f, t, S, cfg, bbi):
             if x == t and y[0] == "call" and y[1].endswith(NORM_DIV) and o in ("Ne", "Lt"):
                 return ("guard", "on the edge `%s %s normalized_divisor()`" % (sym.term_str(t, 60), o))
     return None
+
+
+# ---------------------------------------------------------------------------------------------
+# R13.5  the single-word and double-word rings are width twins: wherever a function handles both the
+# `Single` and the `Double` variant (of ConstDivisorRepr or ReducedRepr), the accessors it calls on the ring
+# object bound in each arm must agree (normalized_divisor vs divisor, shift, divider, ...).  Residues are
+# stored pre-shifted, so `divisor()` in one arm where the twin uses `normalized_divisor()` mixes the two
+# scales for exactly one width class.
+import re as _re
+
+
+def _twin_name(c):
+    c = c.rsplit("::", 1)[-1]
+    for a, b in (("single", "X"), ("double", "X"), ("dword", "W"), ("word", "W")):
+        c = c.replace(a, b)
+    return c
+
+
+def _r13_5(res, P, cfgname):
+    from collections import Counter
+    res.rule("R13.5", "in every function that handles both the Single and the Double ring variant, the accessors called on the ring object agree between the two arms")
+    n = 0
+    for f in P.fns("dashu_int"):
+        b = f.get("mir")
+        if not b:
+            continue
+        S = None
+        acc = {"Single": Counter(), "Double": Counter()}
+        for bb, t, fr in mir.iter_calls(b):
+            cp = fr and (fr.get("rp") or fr["p"])
+            if not cp or not t["a"] or not cp.startswith(("dashu_int::div_const::Const", "num_modular::")):
+                continue
+            S = S or sym.Sym(f)
+            a0 = sym.term_str(S.operand(t["a"][0]), 300)
+            for v in ("Single", "Double"):
+                if _re.search(r"as:%s\.[01]\*?(\.0)?\*?$" % v, a0):
+                    acc[v][_twin_name(cp)] += 1
+        if not (acc["Single"] or acc["Double"]):
+            continue
+        n += 1
+        key = "Single ~ Double arms of " + f["p"]
+        if acc["Single"] == acc["Double"]:
+            res.ok("R13.5", cfgname, key, sample=dict(function=f["p"], accessors=dict(acc["Single"])))
+        else:
+            res.fail("R13.5", cfgname, key, "%s calls %s on the single-word ring but %s on the double-word ring: the two width classes use different quantities (residues are kept pre-shifted by the normalisation shift)" % (
+                f["p"], dict(acc["Single"]), dict(acc["Double"])), span_loc(f["sp"]))
+    res.floor("R13.5", cfgname, n, 12, "functions handling both ring widths")
 
 
 LEVEL = LEVEL + ' Also (R13.4) every raw residue literal takes its value from a ring kernel, a reviewed producer, 0, or a value compared with the normalised divisor; (R15.4b, shared) Reduced::clone_from copies residue and ring on every path; (R19.2, shared) no modular step sits inside a debug assertion; compile-fail witness (thorough): a Reduced value cannot outlive its ring.'
